@@ -151,6 +151,90 @@ let with_ops (before : mstate) (a : string) : string =
   if !count_ops then Printf.sprintf "%s ops=%d" a (int_of_n (!mst).m_ops - int_of_n before.m_ops) else a
 let bool_of s = (s = "1")
 
+(* ---- directory layer ---- *)
+let hb_of s = if s = "-" then [] else bytes_of_hex s
+let fmt_hb b = if b = [] then "-" else hex_of_bytes b
+let dir_cfg = ref cfg_w
+let dir_ck : n list ref = ref []
+let dir_pk : n list ref = ref []
+let dst : dstate ref = ref dir_new
+(* VRF table: (label hex, fresh, version) -> (node label, proof bytes); and the reverse map used to
+   model verification of honestly generated proofs: proof hex -> (alpha = H(label,f,v), output) *)
+let vrf_tbl : (string * bool * string, nlabel * n list) Hashtbl.t = Hashtbl.create 4096
+let vrf_rev : (string, n list * n list) Hashtbl.t = Hashtbl.create 4096
+(* explicit verification outcomes supplied by the implementation's primitive for altered inputs *)
+let vchk_tbl : (string * string * string, n list option) Hashtbl.t = Hashtbl.create 1024
+let missing_vrf = ref false
+let vrf_label_f (l : n list) (f : bool) (v : n) : nlabel option =
+  match Hashtbl.find_opt vrf_tbl (fmt_hb l, f, dec_of_n v) with Some (nl, _) -> Some nl | None -> missing_vrf := true; None
+let vrf_proof_f (l : n list) (f : bool) (v : n) : n list option =
+  match Hashtbl.find_opt vrf_tbl (fmt_hb l, f, dec_of_n v) with Some (_, p) -> Some p | None -> missing_vrf := true; None
+let vrf_check_f (pk : n list) (proof : n list) (alpha : n list) : n list option =
+  match Hashtbl.find_opt vchk_tbl (hex_of_bytes pk, hex_of_bytes proof, hex_of_bytes alpha) with
+  | Some r -> r
+  | None ->
+    (match Hashtbl.find_opt vrf_rev (hex_of_bytes proof) with
+     | Some (a, out) -> if a = alpha && pk = !dir_pk then Some out else None
+     | None -> None)
+
+let ser_lookup p =
+  String.concat " " [dec_of_n p.lp_epoch; fmt_hb p.lp_value; dec_of_n p.lp_version; fmt_hb p.lp_existence_vrf; ser_mp p.lp_existence;
+                     fmt_hb p.lp_marker_vrf; ser_mp p.lp_marker; fmt_hb p.lp_freshness_vrf; ser_nmp p.lp_freshness; fmt_hb p.lp_nonce]
+let next_lookup c =
+  let e = n_of_dec (next c) in let v = hb_of (next c) in let ver = n_of_dec (next c) in
+  let ev = hb_of (next c) in let em = next_mp c in let mv = hb_of (next c) in let mm = next_mp c in
+  let fv = hb_of (next c) in let fm = next_nmp c in let nonce = hb_of (next c) in
+  { lp_epoch = e; lp_value = v; lp_version = ver; lp_existence_vrf = ev; lp_existence = em; lp_marker_vrf = mv; lp_marker = mm;
+    lp_freshness_vrf = fv; lp_freshness = fm; lp_nonce = nonce }
+let ser_update u =
+  let prev = match u.up_prev_vrf, u.up_prev with
+    | Some v, Some m -> "P " ^ fmt_hb v ^ " " ^ ser_mp m
+    | None, None -> "N"
+    | Some v, None -> "V " ^ fmt_hb v
+    | None, Some m -> "M " ^ ser_mp m in
+  String.concat " " [dec_of_n u.up_epoch; dec_of_n u.up_version; fmt_hb u.up_value; fmt_hb u.up_existence_vrf; ser_mp u.up_existence; prev; fmt_hb u.up_nonce]
+let next_update c =
+  let e = n_of_dec (next c) in let ver = n_of_dec (next c) in let v = hb_of (next c) in let ev = hb_of (next c) in let em = next_mp c in
+  let (pv, pm) = (match next c with
+      | "P" -> let v = hb_of (next c) in let m = next_mp c in (Some v, Some m)
+      | "N" -> (None, None)
+      | "V" -> let v = hb_of (next c) in (Some v, None)
+      | _ -> let m = next_mp c in (None, Some m)) in
+  let nonce = hb_of (next c) in
+  { up_epoch = e; up_version = ver; up_value = v; up_existence_vrf = ev; up_existence = em; up_prev_vrf = pv; up_prev = pm; up_nonce = nonce }
+let ser_list f l = String.concat " " (string_of_int (List.length l) :: List.map f l)
+let ser_history p =
+  String.concat " " [ser_list ser_update p.hp_updates; ser_list fmt_hb p.hp_past_vrf; ser_list ser_mp p.hp_past;
+                     ser_list fmt_hb p.hp_future_vrf; ser_list ser_nmp p.hp_future]
+let next_list c f = let k = int_of_string (next c) in List.init k (fun _ -> f c)
+let next_history c =
+  let ups = next_list c next_update in let pv = next_list c (fun c -> hb_of (next c)) in let pm = next_list c next_mp in
+  let fv = next_list c (fun c -> hb_of (next c)) in let fm = next_list c next_nmp in
+  { hp_updates = ups; hp_past_vrf = pv; hp_past = pm; hp_future_vrf = fv; hp_future = fm }
+let fmt_velems es = String.concat " " (string_of_int (List.length es) :: List.map (fun e -> Printf.sprintf "%s %s" (fmt_label e.e_label) (hex_of_bytes e.e_value)) es)
+let sort_velems es = List.sort (fun a b -> let c = cmp_int (nl_cmp a.e_label b.e_label) in if c <> 0 then c else compare (hex_of_bytes a.e_value) (hex_of_bytes b.e_value)) es
+let ser_audit p =
+  String.concat " " ([string_of_int (List.length p.ap_proofs)] @
+                     List.map (fun (ins, unch) -> fmt_velems (sort_velems ins) ^ " " ^ fmt_velems (sort_velems unch)) p.ap_proofs @
+                     [ser_list dec_of_n p.ap_epochs])
+let next_audit c =
+  let proofs = next_list c (fun c -> let ins = next_velems c in let unch = next_velems c in (ins, unch)) in
+  let eps = next_list c (fun c -> n_of_dec (next c)) in
+  { ap_proofs = proofs; ap_epochs = eps }
+let parse_hparams s = if s = "c" then HComplete else HMostRecent (n_of_dec (String.sub s 1 (String.length s - 1)))
+let fmt_res r = Printf.sprintf "%s %s %s" (dec_of_n r.r_epoch) (dec_of_n r.r_version) (fmt_hb r.r_value)
+let ser_state (st : dstate) =
+  let sts = List.sort (fun a b -> let c = compare (hex_of_bytes a.vr_user) (hex_of_bytes b.vr_user) in
+                         if c <> 0 then c else compare (int_of_n a.vr_epoch) (int_of_n b.vr_epoch)) st.d_states in
+  (* usernames are compared as byte strings by the harness: hex of equal-length prefixes orders the same way *)
+  Printf.sprintf "%s %s %s|%s" (dec_of_n st.d_epoch) (dec_of_n st.d_num) (String.trim (ser_tree !dir_cfg true st.d_tree))
+    (String.concat "" (List.map (fun s -> Printf.sprintf " %s:%s:%s:%s:%s" (fmt_hb s.vr_user) (dec_of_n s.vr_epoch) (dec_of_n s.vr_version)
+                                   (fmt_hb s.vr_value) (hex_of_bytes s.vr_label.lval ^ "/" ^ dec_of_n s.vr_label.llen)) sts))
+let rec bits_of_bytes (bs : n list) : bool list =
+  List.concat_map (fun b -> let x = int_of_n b in List.init 8 (fun i -> (x lsr (7 - i)) land 1 = 1)) bs
+(* audit verification as the code does it now; flipped by --no-prefix-free-check *)
+let pf_check = ref true
+
 let answer (c : cur) : string =
   match next c with
   | "is_prefix" -> let a = next_label c in let b = next_label c in if is_prefix_of a b then "1" else "0"
@@ -226,9 +310,56 @@ let answer (c : cur) : string =
   | "tomb" -> let u = n_of_dec (next c) in let e = n_of_dec (next c) in let fr = bool_of (next c) in let fw = bool_of (next c) in
     let b = !mst in let (s, res) = tombstone b u e fr fw in mst := s; with_ops b (match res with Ok _ -> "ok" | Err e -> fmt_err e)
   | "dump" -> sorted_strs (List.map (fun (_, r) -> fmt_rec r) (!mst).m_db)
+  | "dir" -> let cfg = cfg_of (next c) in dir_cfg := cfg; dir_ck := next_bytes c; dir_pk := next_bytes c; dst := dir_new;
+    Hashtbl.reset vrf_tbl; Hashtbl.reset vrf_rev; Hashtbl.reset vchk_tbl; "ok"
+  | "vrf" -> let l = next c in let f = bool_of (next c) in let v = next c in
+    let _eq = next c in let nlh = next c in let ph = next c in
+    let nl = { lval = bytes_of_hex nlh; llen = n_of_int 256 } in
+    Hashtbl.replace vrf_tbl (l, f, v) (nl, bytes_of_hex ph);
+    Hashtbl.replace vrf_rev ph (label_input_hash !dir_cfg (hb_of l) f (n_of_dec v), bytes_of_hex nlh);
+    nlh ^ " " ^ ph
+  | "vchk" -> let pkh = next c in let ph = next c in let ah = next c in let _eq = next c in let r = next c in
+    Hashtbl.replace vchk_tbl (pkh, ph, ah) (if r = "ERR" then None else Some (bytes_of_hex r)); r
+  | "pub" -> let k = int_of_string (next c) in
+    let upds = List.init k (fun _ -> let l = hb_of (next c) in let v = hb_of (next c) in (l, v)) in
+    missing_vrf := false;
+    let (st, r) = publish !dir_cfg !dir_ck vrf_label_f !dst upds in dst := st;
+    (match r with
+     | DOk (e, h) -> Printf.sprintf "ok %s %s" (dec_of_n e) (hex_of_bytes h)
+     | DErrDuplicate -> "err D"
+     | DMissingVrf -> "MISSING-VRF"
+     | _ -> "err O")
+  | "state" -> ser_state !dst
+  | "specroot" -> let cfg = cfg_of (next c) in let k = int_of_string (next c) in
+    let ls = List.init k (fun _ -> let l = next_bytes c in let v = next_bytes c in let e = n_of_dec (next c) in
+                           { sl_bits = bits_of_bytes l; sl_value = v; sl_epoch = e }) in
+    hex_of_bytes (spec_root_hash cfg ls)
+  | "lookup" -> let l = hb_of (next c) in
+    (match lookup !dir_cfg !dir_ck vrf_label_f vrf_proof_f !dst l with
+     | DOk (p, (e, h)) -> Printf.sprintf "ok %s %s %s" (dec_of_n e) (hex_of_bytes h) (ser_lookup p)
+     | DMissingVrf -> "MISSING-VRF"
+     | _ -> "err")
+  | "vlookup" -> let cfg = cfg_of (next c) in let pk = next_bytes c in let root = next_bytes c in let e = n_of_dec (next c) in
+    let l = hb_of (next c) in let p = next_lookup c in
+    (match lookup_verify cfg vrf_check_f pk root e l p with Some r -> "ok " ^ fmt_res r | None -> "err")
+  | "hist" -> let l = hb_of (next c) in let hp = parse_hparams (next c) in
+    (match key_history !dir_cfg !dir_ck vrf_label_f vrf_proof_f !dst l hp with
+     | DOk (p, (e, h)) -> Printf.sprintf "ok %s %s %s" (dec_of_n e) (hex_of_bytes h) (ser_history p)
+     | DMissingVrf -> "MISSING-VRF"
+     | _ -> "err")
+  | "vhist" -> let cfg = cfg_of (next c) in let pk = next_bytes c in let root = next_bytes c in let e = n_of_dec (next c) in
+    let l = hb_of (next c) in let hp = parse_hparams (next c) in let allow = bool_of (next c) in let p = next_history c in
+    (match key_history_verify cfg vrf_check_f pk root e l p hp allow with
+     | Some rs -> String.concat " " ("ok" :: string_of_int (List.length rs) :: List.map fmt_res rs)
+     | None -> "err")
+  | "audit" -> let s0 = n_of_dec (next c) in let e0 = n_of_dec (next c) in
+    (match audit !dir_cfg !dst s0 e0 with DOk p -> "ok " ^ ser_audit p | _ -> "err")
+  | "vaudit" -> let cfg = cfg_of (next c) in let k = int_of_string (next c) in let hs = List.init k (fun _ -> next_bytes c) in
+    let p = next_audit c in if audit_verify_gen cfg !pf_check hs p then "1" else "0"
   | _ -> "?"
 
 let () =
+  if Array.exists (fun a -> a = "--no-prefix-free-check") Sys.argv then pf_check := false;
   if Array.length Sys.argv > 1 && Sys.argv.(1) = "--no-child-check" then child_check := false;
   try
     while true do
@@ -242,7 +373,9 @@ let () =
         let k = find 0 in
         if k < 0 then () else begin
           let q = String.sub line 0 k in
-          let toks = Array.of_list (String.split_on_char ' ' q) in
+          (* table lines (vrf, vchk) carry environment data in their answer part *)
+          let is_table = String.length q > 3 && (String.sub q 0 4 = "vrf " || (String.length q > 4 && String.sub q 0 5 = "vchk ")) in
+          let toks = Array.of_list (String.split_on_char ' ' (if is_table then line else q)) in
           let a = (try answer { toks; i = 0 } with _ -> "EXN") in
           print_string q; print_string " = "; print_endline a
         end
